@@ -237,7 +237,7 @@ def modelled_stream(ctx, replay_lines=None):
                       ['# the modelled-parser stream could not be built'], found_input=False, name='build-c03gen')
         return False
     if replay_lines is not None:
-        tmp = lib.VERIF + '/evidence/.replay-%s-modelled.txt' % ctx.prop
+        tmp = os.environ.get('TMPDIR', '/var/tmp') + '/.replay-%s-modelled.txt' % ctx.prop
         os.makedirs(lib.VERIF + '/evidence', exist_ok=True)
         with open(tmp, 'w') as fh:
             fh.write('\n'.join(replay_lines) + '\n')
@@ -298,7 +298,7 @@ def stream(ctx):
         fuzz_lines, _ = _split_replay(ctx.replay)
         rows, ok = [], True
         if fuzz_lines:
-            tmp = lib.VERIF + '/evidence/.replay-%s-fuzz.txt' % ctx.prop
+            tmp = os.environ.get('TMPDIR', '/var/tmp') + '/.replay-%s-fuzz.txt' % ctx.prop
             os.makedirs(lib.VERIF + '/evidence', exist_ok=True)
             with open(tmp, 'w') as fh:
                 fh.write('\n'.join(fuzz_lines) + '\n')
@@ -313,7 +313,7 @@ def stream(ctx):
     else:
         corp = [l for l in lib.corpus_lines(ctx.prop) if l.startswith('x ')]   # c03gen lines of the corpus go to modelled_stream
         if corp:
-            tmp = lib.VERIF + '/evidence/.corpus-%s.txt' % ctx.prop
+            tmp = os.environ.get('TMPDIR', '/var/tmp') + '/.corpus-%s.txt' % ctx.prop
             os.makedirs(lib.VERIF + '/evidence', exist_ok=True)
             with open(tmp, 'w') as fh:
                 fh.write('\n'.join(corp) + '\n')
